@@ -406,6 +406,7 @@ theorem C23_rotation (r : Registry) (now : Nat) (fk : Bytes) (fiv : Nat) (id : N
         rw [find?_filter_ne _ _ _ (by omega)]; exact hk
       rw [hf]; rfl
     · intro k' hk'
+      show k'.id ≤ r.nextKeyID + 1
       rcases List.mem_append.mp hk' with h | h
       · have := hids k' (List.mem_filter.mp h).1; omega
       · simp at h; subst h; exact Nat.le_refl _
